@@ -41,13 +41,69 @@ func capacityScenarios(rep *rt.Report) {
 			name := fmt.Sprintf("chain b1:k=1 <- b2 <- b3:k=3 <- b4; reread(k,b1)=%v; %d sibling blocks of b2 writing k; Get(k,b4)", reread, siblings)
 			if ok && render(v) != "3" {
 				msg := fmt.Sprintf("%s returned %s; the value on b4's chain is 3", name, render(v))
-				// discriminator: attributed to the capacity finding only if the per-key map is at its capacity (something was evicted)
-				if haveDump && maxPerKey >= 200 && rt.OpenFinding("C06-capacity-eviction") {
+				// discriminator: attributed to the capacity finding only if the entries this history legitimately
+				// creates for k (b1, b3 and one per sibling) exceed the capacity, i.e. something had to be evicted,
+				// and the dumped per-key map is indeed at its capacity
+				if haveDump && siblings+2 > 200 && maxPerKey >= 200 && rt.OpenFinding("C06-capacity-eviction") {
 					rep.KnownHit("C06-capacity-eviction", name, msg)
 					continue
 				}
 				rep.Violate(msg, map[string]any{"scenario": name})
 			}
+		}
+	}
+	// deep walks below the capacity: W consecutive blocks rewrite k, H more blocks do not touch it; an old
+	// writer X is re-read (its entry becomes the most recently used), then k is looked up at the tip (a walk
+	// over H blocks). The history creates W entries for k plus one memoised entry per lookup at a non-writer,
+	// always fewer than the capacity here: nothing may be evicted, every later hit must be exact.
+	for _, p := range [][3]int{{60, 175, 5}, {150, 100, 0}, {20, 400, 5}, {190, 30, 100}, {198, 60, 3}, {100, 250, 50}} {
+		W, H, X := p[0], p[1], p[2]
+		sc := statecache.NewStateCache()
+		name := func(i int) string { return fmt.Sprintf("c%d", i) }
+		for i := 0; i < W+H; i++ {
+			prev := "c-root"
+			if i > 0 {
+				prev = name(i - 1)
+			}
+			if i < W {
+				commit(sc, name(i), prev, map[string]string{"k": fmt.Sprintf("w%d", i)})
+			} else {
+				commit(sc, name(i), prev, map[string]string{"j": "x"})
+			}
+		}
+		desc := fmt.Sprintf("chain of %d blocks rewriting k (w0..w%d) followed by %d blocks not touching it; Get(k,c%d); Get(k,tip)", W, W-1, H, X)
+		rep.Add("capacity_scenarios", 1)
+		bad := func(what, got, want string) {
+			rep.Violate(fmt.Sprintf("%s; then %s returned %s; the value on that block's chain is %s and this history creates only %d entries for k (capacity 200)", desc, what, got, want, W+1), map[string]any{"scenario": desc})
+		}
+		if v, ok := sc.Get("k", name(X)); ok && render(v) != fmt.Sprintf("w%d", X) {
+			bad(fmt.Sprintf("Get(k,c%d)", X), render(v), fmt.Sprintf("w%d", X))
+			continue
+		}
+		tip := name(W + H - 1)
+		if v, ok := sc.Get("k", tip); ok && render(v) != fmt.Sprintf("w%d", W-1) {
+			bad("Get(k,tip)", render(v), fmt.Sprintf("w%d", W-1))
+			continue
+		}
+		failed := false
+		// the writers (their own entries: no new entry is created by these lookups), nearest to X first
+		for d := 1; d < W && !failed; d++ {
+			for _, i := range []int{X + d, X - d} {
+				if i < 0 || i >= W {
+					continue
+				}
+				if v, ok := sc.Get("k", name(i)); ok && render(v) != fmt.Sprintf("w%d", i) {
+					bad(fmt.Sprintf("Get(k,c%d)", i), render(v), fmt.Sprintf("w%d", i))
+					failed = true
+					break
+				}
+			}
+		}
+		if failed {
+			continue
+		}
+		if v, ok := sc.Get("k", tip); ok && render(v) != fmt.Sprintf("w%d", W-1) {
+			bad("a second Get(k,tip)", render(v), fmt.Sprintf("w%d", W-1))
 		}
 	}
 }
